@@ -347,3 +347,68 @@ Proof.
   assert (j = i + length t) by (apply (ipv4_match_at_a_token_covers_exactly_the_token s t i [] Q O Hi A j cj); rewrite E; now left).
   subst j. now exists cj.
 Qed.
+
+(* ======== over a whole line: finditer (the leftmost-first scan under re.finditer / re.sub) reports every standalone dotted quad, with its exact extent ======== *)
+Lemma search_from_first (s : list chr) r : forall n i a b c, search_from s n r i = Some (a, b, c) -> forall p, i <= p < a -> match_at s r p = None.
+Proof.
+  induction n as [|n IH]; intros i a b c H p Hp; cbn [search_from] in H; destruct (match_at s r i) as [[j cj]|] eqn:E.
+  - injection H as <- <- <-. lia.
+  - discriminate.
+  - injection H as <- <- <-. lia.
+  - destruct (Nat.eq_dec p i) as [->|]; [exact E|]. apply (IH (S i) a b c H). lia.
+Qed.
+Lemma search_from_finds (s : list chr) r : forall n i a b c, match_at s r a = Some (b, c) -> i <= a -> a <= i + n ->
+  exists a' b' c', search_from s n r i = Some (a', b', c') /\ a' <= a.
+Proof.
+  induction n as [|n IH]; intros i a b c M Hia Han; cbn [search_from].
+  - assert (a = i) by lia. subst a. rewrite M. eauto.
+  - destruct (match_at s r i) as [[j cj]|] eqn:E; [eauto|].
+    destruct (Nat.eq_dec a i) as [->|]; [congruence|]. destruct (IH (S i) a b c M ltac:(lia) ltac:(lia)) as (a' & b' & c' & H & Hle). eauto.
+Qed.
+
+Theorem ipv4_finditer_reports_every_standalone_dotted_quad (s : list chr) (t : list chr) a :
+  dotted_quad t -> occ s t a -> a + length t <= length s ->
+  (a = 0 \/ (1 <= a /\ exists x, nth_error s (a - 1) = Some x /\ in_cset x ENC = true)) ->
+  (eol s (a + length t) = true \/ exists x, nth_error s (a + length t) = Some x /\ in_cset x ENC = true) ->
+  forall fuel i, i <= a -> a - i < fuel -> In (a, a + length t) (finditer s fuel IPV4_RX i).
+Proof.
+  intros Q O Hlen B A.
+  assert (Ha : a <= length s) by lia.
+  destruct (ipv4_engine_replaces_the_whole_token s t a Q O Ha B A) as (c0 & M).
+  assert (Ht : t <> []). { destruct Q as (z1 & o1 & z2 & o2 & z3 & o3 & z4 & o4 & -> & _). destruct z1; [destruct o1|]; discriminate. }
+  induction fuel as [|fuel IH]; intros i Hi Hf; [lia|]. cbn [finditer].
+  destruct (search_from_finds s IPV4_RX (Rx.slen s - i) i a _ _ M Hi ltac:(unfold Rx.slen; lia)) as (p & q & cq & S & Hpa).
+  rewrite S. pose proof (search_from_ge s _ _ _ _ _ _ S) as [Hip Mp].
+  destruct (Nat.eq_dec p a) as [->|Hne].
+  - rewrite M in Mp. injection Mp as <- <-. now left.
+  - (* an earlier match: a whole token that ends before a *)
+    right. assert (Hp : p <= length s) by lia.
+    pose proof (match_at_in s _ _ _ _ Mp) as Hin.
+    destruct (ipv4_match_is_a_whole_token s p [] q cq Hp Hin) as (F & _ & _). rewrite Forall_forall in F.
+    pose proof (ms_den s _ _ _ _ _ Hin) as D. destruct (den_bounds s _ _ _ D) as [Hpq Hq]. specialize (Hq Hp).
+    assert (Hlt : p < q). { destruct (ms_mono s _ _ _ _ _ Hin) as [_ Sm]. apply Sm. reflexivity. }
+    assert (Hqa : q <= a).
+    { destruct (Nat.le_gt_cases q a) as [|Hgt]; [assumption|exfalso].
+      destruct B as [->|(H1 & x & Hx & Ex)]; [lia|].
+      pose proof (F _ (in_sub s p q (a - 1) x ltac:(lia) ltac:(lia) Hq Hx)) as Nx. congruence. }
+    replace (Nat.eqb p q) with false by (symmetry; apply Nat.eqb_neq; lia).
+    apply IH; lia.
+Qed.
+
+Theorem ipv4_finditer_reports_only_standalone_dotted_quads (s : list chr) : forall fuel i a b, i <= length s ->
+  In (a, b) (finditer s fuel IPV4_RX i) ->
+  (a = 0 \/ (1 <= a /\ exists x, nth_error s (a - 1) = Some x /\ enclosing x)) /\
+  (eol s b = true \/ exists x, nth_error s b = Some x /\ enclosing x) /\
+  dotted_quad (sub s a b).
+Proof.
+  induction fuel as [|fuel IH]; intros i a b Hi H; cbn [finditer] in H; [destruct H|].
+  destruct (search_from s (Rx.slen s - i) IPV4_RX i) as [[[p q] cq]|] eqn:S; [|destruct H].
+  pose proof (search_from_le s _ _ _ _ _ _ S) as Hp. unfold Rx.slen in Hp.
+  destruct H as [[= <- <-]|H].
+  - apply (ipv4_search_finds_only_standalone_dotted_quads s (Rx.slen s - i) i p q cq); [unfold Rx.slen; lia|exact S].
+  - pose proof (search_from_ge s _ _ _ _ _ _ S) as [_ Mp]. pose proof (match_at_in s _ _ _ _ Mp) as Hin.
+    pose proof (ms_den s _ _ _ _ _ Hin) as D. destruct (den_bounds s _ _ _ D) as [Hpq Hq]. specialize (Hq ltac:(lia)).
+    destruct (ms_mono s _ _ _ _ _ Hin) as [_ Sm]. specialize (Sm eq_refl).
+    replace (Nat.eqb p q) with false in H by (symmetry; apply Nat.eqb_neq; lia).
+    apply (IH q a b Hq H).
+Qed.
